@@ -42,15 +42,37 @@ def compile_once(binary, base, files, entry, timeout=TIMEOUT, backtrace=False):
 PANIC_AT = re.compile(r"panicked at ([^\s:]+):(\d+):(\d+):\n(.*)")
 
 
-def raw_key(rc, err):
+def bracket_depth(text, ch="["):
+    close = {"[": "]", "(": ")", "{": "}"}[ch]
+    d = best = 0
+    for c in text:
+        if c == ch:
+            d += 1
+            best = max(best, d)
+        elif c == close and d:
+            d -= 1
+    return best
+
+
+TYPE_CONTEXT = re.compile(r"(:|->|\btype\s+\w+|\bmap\s*\[|\.\.\.)\s*(\[\s*){10,}")
+
+
+def timeout_shape(text):
+    """the two known exponential families of the grammar (DESIGN F10) are recognised by their shape"""
+    if bracket_depth(text) >= 12:
+        return "nested-list-type" if TYPE_CONTEXT.search(text) else "nested-list-value"
+    return "other"
+
+
+def raw_key(rc, err, text=""):
     """coarse failure key of one run (stable within one build): None when the run is fine"""
     if rc in (0, 1):
         return None
     if rc == 124:
-        return ("timeout",)
+        return ("timeout", timeout_shape(text))
     m = PANIC_AT.search(err)
     if "has overflowed its stack" in err:
-        return ("stack-overflow",)
+        return ("stack-overflow", "deep-nesting" if nesting_depth(text) >= 100 else "other")
     if m:
         return ("panic", "%s:%s" % (m.group(1), m.group(2)))
     return ("exit", str(rc))
@@ -103,15 +125,12 @@ def nesting_depth(text):
 
 
 def final_class(binary, base, key, files, entry, err):
-    text = files[entry]
     if key[0] == "panic":
         return panic_class(binary, base, files, entry, err)
     if key[0] == "stack-overflow":
-        return "stack-overflow-deep-nesting" if nesting_depth(text) >= 100 else "stack-overflow"
+        return "stack-overflow-deep-nesting" if key[1] == "deep-nesting" else "stack-overflow"
     if key[0] == "timeout":
-        if re.search(r":\s*(\[\s*){12,}", text) or re.search(r"(\[\s*){14,}[A-Za-z_]\w*\s*\.\.\.", text):
-            return "exponential-nested-list-type"
-        return "timeout"
+        return {"nested-list-type": "exponential-nested-list-type", "nested-list-value": "exponential-nested-list-value"}.get(key[1], "timeout")
     return "unexpected-exit:%s" % key[1]
 
 
@@ -125,9 +144,10 @@ def suspects():
         ("suspect:F16-fn-literal-in-self-call",
          "mk = fn(n: int, k: fn() -> int) -> int { if n == 0 { return k() } return self(n - 1, fn() -> int { return n }) }\n"),
         ("suspect:F10-nested-list-type", "x: " + "[" * k + "int..." + "]" * k + " = 1\n"),
+        ("suspect:F10-unclosed-nested-list", "x = " + "[" * k),
         ("suspect:deep-parens", "x = " + "(" * 1900 + "1" + ")" * 1900 + "\n"),
-        ("suspect:deep-list", "x = " + "[" * 1900 + "1" + "]" * 1900 + "\n"),
-        ("suspect:deep-blocks", "if true " + "{ if true " * 400 + "{}" + "}" * 400 + "\n"),
+        ("suspect:deep-list", "x = " + "[" * 1000 + "1" + "]" * 1000 + "\n"),
+        ("suspect:deep-blocks", "if true {" * 400 + "}" * 400 + "\n"),
         ("suspect:empty", ""),
         ("suspect:bom", "﻿print 1\n"),
         ("suspect:nul", "print \x00\n"),
@@ -146,7 +166,7 @@ def suspects():
     ]
 
 
-def build_inputs(ctx, gr, n_gen, n_mut, n_mutgen):
+def build_inputs(ctx, gr, n_gen, n_mut, n_mutgen, n_grid=0):
     """-> list of cases {name, stream, files, entry}"""
     rng = ctx.rng
     cases = []
@@ -190,6 +210,14 @@ def build_inputs(ctx, gr, n_gen, n_mut, n_mutgen):
         files = dict(p["files"])
         files[which] = text
         cases.append({"name": "mut:%d:%s" % (i, p["name"]), "stream": "mutated-corpus", "files": files, "entry": p["entry"], "ops": ops})
+    grid = []
+    for i in range(n_grid):
+        t = peg_gen.typed_grid_case(rng)
+        grid.append(t)
+        cases.append({"name": "grid:%d" % i, "stream": "typed-grid", "files": {"main.ms": t}, "entry": "main.ms"})
+    for i in range(n_grid // 8):
+        text, ops = peg_gen.mutate(rng, rng.choice(grid), pool, n_ops=1, fragment=fragment)
+        cases.append({"name": "mutgrid:%d" % i, "stream": "mutated-typed-grid", "files": {"main.ms": text}, "entry": "main.ms", "ops": ops})
     for i in range(n_mutgen if gen_texts else 0):
         text, ops = peg_gen.mutate(rng, rng.choice(gen_texts), pool, fragment=fragment)
         cases.append({"name": "mutgen:%d" % i, "stream": "mutated-generated", "files": {"main.ms": text}, "entry": "main.ms", "ops": ops})
@@ -226,7 +254,7 @@ def search(ctx, binary, cases):
             slow.append((round(dt, 1), c["name"]))
         if rc == 1 and not (out.strip() or err.strip()):
             nodiag.append(c)
-        key = raw_key(rc, err)
+        key = raw_key(rc, err, c["files"][c["entry"]])
         if key is None:
             continue
         size = sum(len(t) for t in c["files"].values())
@@ -236,48 +264,58 @@ def search(ctx, binary, cases):
     return n, by_exit, by_stream, slow, failures, nodiag, base
 
 
-def minimise_failure(ctx, binary, base, key, c, err):
+def minimise_failure(ctx, binary, base, key, c, rc, err):
     """delta-debug the entry file (lines, then tokens) keeping the same raw failure key"""
     files = dict(c["files"])
     entry = c["entry"]
+    if c["stream"] == "suspect":
+        return files, entry, rc, err, None          # hand-written, already minimal
     # try to drop the other files of the project first
     if len(files) > 1:
-        rc, out, e2, _ = compile_once(binary, base, {entry: files[entry]}, entry)
-        if raw_key(rc, e2) == key:
+        rc1, out, e2, _ = compile_once(binary, base, {entry: files[entry]}, entry)
+        if raw_key(rc1, e2, files[entry]) == key:
             files = {entry: files[entry]}
-    budget = 24 if key[0] == "timeout" else (120 if key[0] == "stack-overflow" else 500)
-    tmo = TIMEOUT
-    last_err = [err]
+    budget = 16 if key[0] == "timeout" else (120 if key[0] == "stack-overflow" else 500)
 
     def still(text):
         f2 = dict(files)
         f2[entry] = text
-        rc, out, e2, _ = compile_once(binary, base, f2, entry, timeout=tmo)
-        if raw_key(rc, e2) == key:
-            last_err[0] = e2
-            return True
-        return False
+        rc1, out, e2, _ = compile_once(binary, base, f2, entry)
+        return raw_key(rc1, e2, text) == key
     text = files[entry]
     if len(text) > 40:
         text = peg_gen.minimise(text, still, max_tests=budget)
+    if text == c["files"][entry] and files == c["files"] and key[0] != "timeout":
+        return files, entry, rc, err, None
     files[entry] = text
-    # the minimised input must fail on its own (re-verified with the full timeout)
-    rc, out, e2, dt = compile_once(binary, base, files, entry)
-    if raw_key(rc, e2) != key:
+    # the minimised input must fail on its own
+    rc2, out, e2, dt = compile_once(binary, base, files, entry)
+    if raw_key(rc2, e2, text) != key:
         files = dict(c["files"])
-        rc, out, e2, dt = compile_once(binary, base, files, entry)
-    return files, entry, rc, e2, dt
+        rc2, out, e2, dt = compile_once(binary, base, files, entry)
+        if raw_key(rc2, e2, files[entry]) != key:
+            return None          # not reproducible when run alone (e.g. a time-out under load): never reported
+    return files, entry, rc2, e2, dt
 
 
 def report_failures(ctx, binary, base, failures):
+    keys = sorted(failures, key=lambda k: tuple(map(str, k)))
+
+    def one(key):
+        size, c, rc, err = failures[key]
+        m = minimise_failure(ctx, binary, base, key, c, rc, err)
+        if m is None:
+            return None
+        files, entry, rc2, err2, dt = m
+        cls = final_class(binary, base, key, files, entry, err2)
+        return key, c, files, entry, rc2, err2, dt, cls
+
     found = 0
     sites = []
-    for key in sorted(failures, key=lambda k: tuple(map(str, k))):
-        size, c, rc, err = failures[key]
-        files, entry, rc2, err2, dt = minimise_failure(ctx, binary, base, key, c, err)
-        if raw_key(rc2, err2) != key:
-            continue    # not reproducible (flaky): never reported
-        cls = final_class(binary, base, key, files, entry, err2)
+    for r in programs.pmap(one, keys):
+        if r is None:
+            continue
+        key, c, files, entry, rc2, err2, dt, cls = r
         m = PANIC_AT.search(err2)
         what = "mscript compile dies on a %d-byte input: %s" % (
             peg_gen.byte_len(files[entry]),
@@ -287,14 +325,14 @@ def report_failures(ctx, binary, base, failures):
         sites.append({"class": cls, "raw": list(key), "from": c["name"], "rc": rc2, "witness": files[entry][:400]})
         found += 1
         ctx.report(cls, what, {"files": files, "entry": entry, "cmd": "mscript compile %s --quick   (in a scratch copy of the files)" % entry,
-                               "exit": rc2, "stderr": err2[-1200:], "seconds": round(dt, 2),
-                               "found_from": c["name"], "stream": c["stream"], "expected": "exit 0, or exit 1 with diagnostics"})
+                               "exit": rc2, "stderr": err2[-1200:], "found_from": c["name"], "stream": c["stream"],
+                               "expected": "exit 0, or exit 1 with diagnostics, within %d s" % TIMEOUT})
     return found, sites
 
 
 def run_search(ctx, binary, gr):
     q = ctx.quick()
-    cases, deriver, corpus = build_inputs(ctx, gr, 500 if q else 9000, 900 if q else 16000, 250 if q else 6000)
+    cases, deriver, corpus = build_inputs(ctx, gr, 1500 if q else 15000, 3500 if q else 40000, 1000 if q else 10000, 4000 if q else 60000)
     n, by_exit, by_stream, slow, failures, nodiag, base = search(ctx, binary, cases)
     found, sites = report_failures(ctx, binary, base, failures)
     for c in nodiag[:1]:
@@ -357,7 +395,7 @@ def tie_inputs(ctx, gr, search_cases, n_rule, n_file, n_mut):
         d.derive(r)
     for _ in range(2):
         for tgt in d.uncovered():
-            st = tgt[0] if tgt[0] in user else next((r for r in user if tgt[0] in gr.reach[r]), None)
+            st = tgt[0] if tgt[0] in user else next((r for r in (["file"] if "file" in user else []) + user if tgt[0] in gr.reach[r]), None)
             if st is not None:
                 out.append((st, d.derive(st, target=tgt)))
     rule_cov = (len(d.covered), sum(gr.alts.values()), [list(x) for x in d.uncovered()][:10])
@@ -439,6 +477,25 @@ def run_tie(ctx, gr, cases):
             "max_model_steps": max_steps[0], "max_model_steps_case": max_steps[1]}
 
 
+def build_growth(ctx):
+    """Peg/Growth.v: the model reproduces the exponential step growth of the two known families.  It is a
+    witness of a DEFECT, so failing to compile (grammar repaired) is recorded, never reported as a violation."""
+    with core.Lock("coq"):
+        rc, out, err = core.sh("timeout 600 make -j%d Peg/Growth.vo" % core.NCPU, cwd=core.COQ, timeout=700)
+    gate = core.coq_gate(["Peg/Growth.v"])
+    n, names = core.count_obligations(["Peg/Growth.v"])
+    okg = rc == 0 and not gate
+    ctx.cov["exponential_growth_reproduced_in_model"] = {
+        "file": "Peg/Growth.v", "compiled": okg, "examples": names,
+        "meaning": "steps(k+2)-steps(k+1) = 2*(steps(k+1)-steps(k)) and steps(k) >= 2^k for k = 1..12, both families (vm_compute)"}
+    if okg:
+        ctx.cov["obligations"] = ctx.cov.get("obligations", 0) + n
+        ctx.cov["discharged"] = ctx.cov.get("discharged", 0) + n
+    else:
+        print("note: Peg/Growth.v (model-level witness of the known exponential findings) no longer compiles: %s" % (err.decode("utf8", "replace")[-300:]))
+    return okg
+
+
 def run(ctx):
     # T6: translate the CURRENT grammar.pest (Gen/Grammar.v must exist before make)
     gr = None
@@ -446,26 +503,46 @@ def run(ctx):
         from gen import pest2coq
         rules = pest2coq.main(core.REPO, os.path.join(core.COQ, "Gen", "Grammar.v"))
         gr = peg_gen.Grammar(rules)
+        ctx.cov["grammar"] = {"rules": len(rules), "built_in": sum(1 for r in rules if r[3]),
+                              "by_modifier": {m: sum(1 for r in rules if r[1] == m) for m in sorted({r[1] for r in rules})}}
     except Exception as ex:
         ctx.report("translator-broken", "T6 translator gen/pest2coq.py failed on the current grammar.pest: %s" % ex,
                    {"error": str(ex)}, found_input=False)
     ok = core.coq_props(ctx, "Props/C16.v")
+    if ok:
+        build_growth(ctx)
     binary = core.build_repo()
     n, found, cases = run_search(ctx, binary, gr)
     tie = None
     if gr is not None:
         q = ctx.quick()
-        tcases, rule_cov = tie_inputs(ctx, gr, cases, 4 if q else 40, 300 if q else 6000, 400 if q else 8000)
-        tie = run_tie(ctx, gr, tcases)
-        tie["start_rule_coverage"] = {"rule": "alternatives / optional branches taken when every rule is used as start symbol", "covered": rule_cov[0], "of": rule_cov[1], "uncovered": rule_cov[2]}
-        ctx.cov["peg_tie"] = tie
-        ctx.cov["traces_validated_against_impl"] = tie["cases"]
-        ctx.cov["distinct_nontrivial"] = tie["distinct_nontrivial_trees"]
-        ctx.cov["rule"] = ("evaluations = compiler runs of the search + tie cases; distinct_nontrivial = distinct pest parse trees with >= 3 nodes "
-                           "on which pest and the Coq interpreter were compared node by node")
+        try:
+            tcases, rule_cov = tie_inputs(ctx, gr, cases, 4 if q else 40, 300 if q else 6000, 400 if q else 8000)
+            tie = run_tie(ctx, gr, tcases)
+        except core.BuildError as ex:
+            ctx.report("correspondence:peg-tie-unavailable", "PEG tie could not be built: %s" % str(ex)[-600:],
+                       {"error": str(ex)[-2000:], "correspondence": "T-peg (harness/peg vs extracted Peg/Interp.v)"}, found_input=False)
+        if tie is not None:
+            tie["start_rule_coverage"] = {"rule": "alternatives / optional branches taken when every rule is used as start symbol", "covered": rule_cov[0], "of": rule_cov[1], "uncovered": rule_cov[2]}
+            ctx.cov["peg_tie"] = tie
+            ctx.cov["traces_validated_against_impl"] = tie["cases"]
+            ctx.cov["distinct_nontrivial"] = tie["distinct_nontrivial_trees"]
+            for r, t in tcases[200:203]:
+                ctx.sample({"tie_case": {"rule": r, "input": t[:120]}})
+    ctx.cov["rule"] = ("evaluations = compiler runs of the SEARCH + PEG tie cases; distinct_nontrivial = distinct pest parse trees with >= 3 nodes "
+                       "on which pest (derived from the current grammar.pest) and the Coq interpreter agreed node by node (rule, span, depth)")
     ctx.cov["evaluations"] = n + (tie["cases"] if tie else 0)
     ctx.cov["exhaustive"] = False
-    ctx.cov["trusted_base"] = ["Coq 8.16.1 kernel (coqc; vm_compute in Examples)", "gen/pest2coq.py (translator grammar.pest -> Gen/Grammar.v)",
-                               "the exit-status search is testing, not proof"]
-    ctx.assumptions = ["everything behind the parser (AST builders, type checker, code generator: several hundred unwrap-like sites) is searched, not proved"]
-    core.proof_or_search(ctx, ok, ["C16_peg_terminates", "C16_grammar_wf"], found > 0)
+    for c in cases[:400]:
+        if c["stream"] in ("generated", "mutated-corpus") and len(ctx.cov["samples"]) < 6 and 20 < len(c["files"][c["entry"]]) < 200:
+            ctx.sample({"search_case": c["name"], "stream": c["stream"], "input": c["files"][c["entry"]][:200]})
+    ctx.cov["trusted_base"] = ["Coq 8.16.1 kernel (coqc; vm_compute in Examples)", "no axioms (Print Assumptions: closed under the global context)",
+                               "gen/pest2coq.py (translator grammar.pest -> Gen/Grammar.v, incl. its table of pest built-ins)",
+                               "Peg/Desugar.v + Peg/Interp.v are a hand-written model of pest 2.8 semantics, tied by this run's parse-tree comparison",
+                               "harness/peg (pest_derive on the current grammar.pest), extraction ExtrOcamlBasic only + extract/peg_driver.ml glue",
+                               "the exit-status SEARCH is testing, not proof"]
+    ctx.assumptions = ["PROVED: parser-layer termination for the translated grammar (model of pest); NOT proved: everything behind the parser "
+                       "(AST builders, type checker, code generator: several hundred unwrap-like sites) -- searched only",
+                       "native stack exhaustion is outside the model (fuel is recursion depth, not a stack size)",
+                       "pest error positions are not modelled (the tie compares accept/reject and trees)"]
+    core.proof_or_search(ctx, ok, ["C16_parser_terminates_partial", "C16_grammar_wf", "C16_mscript_parser_terminates_partial"], found > 0)
